@@ -38,6 +38,9 @@ impl KeyPool {
 		let slot = format!("{}/{}", alg, via);
 		let per = if alg.starts_with("rsa") { 2 } else { self.per_slot };
 		let v = self.keys.entry(slot.clone()).or_default();
+		if via == "by-oid" {
+			return v.first().ok_or_else(|| "no key prepared for this OID".to_string());
+		}
 		if v.len() < per {
 			let h = format!("k-{}-{}", slot, v.len());
 			v.push(live_key(&h, alg, via, rng)?);
@@ -357,8 +360,57 @@ pub fn run_random(out_path: &str, n: usize) {
 			run_case(&c, i, seed, &mut pool, &mut out);
 		}
 	}
+	by_oid(seed, &mut pool, &mut out);
 	out.finish();
 }
+
+/// Certificates under every algorithm that `SignatureAlgorithm::from_oid` hands out: the seven registered ones, and whatever
+/// else it returns for the signature OIDs that exist in the wild (nothing, on a tree where the table holds what is documented).
+#[cfg(feature = "crypto")]
+fn by_oid(seed: u64, pool: &mut KeyPool, out: &mut Out) {
+	use pki_types::PrivatePkcs8KeyDer;
+	let mut rng = Rng::new(seed ^ 0x01d);
+	let oids: Vec<Vec<u64>> = vec![
+		vec![1, 2, 840, 113549, 1, 1, 11], vec![1, 2, 840, 113549, 1, 1, 12], vec![1, 2, 840, 113549, 1, 1, 13], vec![1, 2, 840, 10045, 4, 3, 2],
+		vec![1, 2, 840, 10045, 4, 3, 3], vec![1, 2, 840, 10045, 4, 3, 4], vec![1, 3, 101, 112],
+		vec![1, 2, 840, 113549, 1, 1, 10], vec![1, 2, 840, 113549, 1, 1, 5], vec![1, 2, 840, 113549, 1, 1, 14], vec![1, 2, 840, 10045, 4, 1],
+		vec![1, 2, 840, 10045, 4, 3, 1], vec![1, 3, 101, 113], vec![2, 16, 840, 1, 101, 3, 4, 3, 2], vec![1, 2, 840, 113549, 1, 1, 1], vec![1, 2, 840, 10045, 2, 1],
+	];
+	for (i, oid) in oids.iter().enumerate() {
+		let alg = match guarded_any(|| rcgen::SignatureAlgorithm::from_oid(oid)) {
+			Ok(Ok(a)) => a,
+			_ => continue,
+		};
+		let name = alg_name(alg);
+		let name = if alg_static(&name).is_some() { name } else { format!("unregistered:{}", oid.iter().map(|a| a.to_string()).collect::<Vec<_>>().join(".")) };
+		let slot = format!("{}/by-oid", name);
+		for ktype in ["rsa", "p256", "p384", "p521", "ed25519"] {
+			if pool.keys.get(&slot).map(|v| !v.is_empty()).unwrap_or(false) {
+				break;
+			}
+			if ktype == "p521" && crate::BACKEND == "ring" {
+				continue;
+			}
+			let pkey = gen_pkey(ktype, &mut rng);
+			let info = info_from_pkey(&format!("k-{}", slot), &name, &pkey, "openssl-pkcs8");
+			if let Outcome::Ok(kp) = guarded(|| rcgen::KeyPair::from_pkcs8_der_and_sign_algo(&PrivatePkcs8KeyDer::from(info.pkcs8.clone()), alg)) {
+				pool.keys.insert(slot.clone(), vec![LiveKey { info, kp, log: None, via: "by-oid".to_string() }]);
+			}
+		}
+		if pool.keys.get(&slot).map(|v| v.is_empty()).unwrap_or(true) {
+			continue;
+		}
+		for (j, is_self) in [true, false].iter().enumerate() {
+			let mut p = base_params_desc();
+			p["serial"] = json!({"k": "given", "b": [9, i as u8, j as u8]});
+			let c = json!({"grp": "by-oid", "_id": format!("by-oid/{}/{}/{}", seed, i, j), "params": p, "self": is_self, "subjAlg": name, "signAlg": name,
+				"subjVia": "by-oid", "signVia": "by-oid", "issuerKid": {"k": "sha256", "b": []}, "issuerDn": [], "pubSrc": "keypair", "hash2": []});
+			run_case(&c, i, seed, pool, out);
+		}
+	}
+}
+#[cfg(not(feature = "crypto"))]
+fn by_oid(_seed: u64, _pool: &mut KeyPool, _out: &mut Out) {}
 
 pub fn run_cases(cases_path: &str, out_path: &str) {
 	let seed = seed_from_env();
